@@ -271,6 +271,19 @@ class NP:
         out.prefix_ghost = ghosts[-1]
         return out
 
+    def all(self, a, axis=None):
+        if isinstance(a, Arr):
+            raise Undecided("np.all over an array")
+        return sbool(a)
+
+    def any(self, a, axis=None):
+        if isinstance(a, Arr):
+            raise Undecided("np.any over an array")
+        return sbool(a)
+
+    def isscalar(self, a):
+        return not isinstance(a, Arr)
+
     def minimum(self, a, b):
         if isinstance(a, Arr) or isinstance(b, Arr):
             a = a if isinstance(a, Arr) else arrays.full([], a, arrays._scalar_dtype(a))
